@@ -108,6 +108,12 @@ def run_basic(prop, tier, seed, gen_kwargs=None):
         before = len(chk.violations)
         if prop == "C05":
             _c05(chk, e, rec, o, recs_by_key)
+        elif prop == "C06":
+            # only values (locations) are C06's business: the order of inlined actions belongs to
+            # C14 (known finding F13 would otherwise show up here as wrong_action_order)
+            nv = len(chk.violations)
+            pipeline.monitor_basic(chk, props, e.case, e, rec, o)
+            chk.violations[nv:] = [w for w in chk.violations[nv:] if w["kind"] == "wrong_value"]
         else:
             pipeline.monitor_basic(chk, props, e.case, e, rec, o)
         # non-triviality accounting
